@@ -774,6 +774,43 @@ async fn exec(cx: &mut Cx<'_>, st: &Step) {
                         let f = unsafe_extend_ask(t, m);
                         Some(Box::pin(async move { rep(f.await, raw) }))
                     }
+                    // the timeout forms: whatever the route, the deadline counts from the first poll of the future
+                    (H::Strong(r), SendKind::TellTO(d)) => {
+                        let (r, d) = (r.clone(), *d);
+                        // (the clock is also stopped at creation time + d on every route, so that the routes differ
+                        // only if the code under test makes them differ)
+                        msched::register_deadline(d as u64);
+                        Some(Box::pin(async move {
+                            msched::register_deadline(d as u64);
+                            unit(r.tell_with_timeout(m, ms(d)).await, raw)
+                        }))
+                    }
+                    (H::Strong(r), SendKind::AskTO(d)) => {
+                        let (r, d) = (r.clone(), *d);
+                        msched::register_deadline(d as u64);
+                        Some(Box::pin(async move {
+                            msched::register_deadline(d as u64);
+                            rep(r.ask_with_timeout(m, ms(d)).await, raw)
+                        }))
+                    }
+                    (H::Tell(t), SendKind::TellTO(d)) => {
+                        let d = *d;
+                        msched::register_deadline(d as u64);
+                        let f = unsafe_extend_to(t.clone(), m, ms(d));
+                        Some(Box::pin(async move {
+                            msched::register_deadline(d as u64);
+                            unit(f.await, raw)
+                        }))
+                    }
+                    (H::Ask(t), SendKind::AskTO(d)) => {
+                        let d = *d;
+                        msched::register_deadline(d as u64);
+                        let f = unsafe_extend_ask_to(t.clone(), m, ms(d));
+                        Some(Box::pin(async move {
+                            msched::register_deadline(d as u64);
+                            rep(f.await, raw)
+                        }))
+                    }
                     _ => None,
                 };
                 (op, raw, fut)
@@ -1290,6 +1327,44 @@ fn unsafe_extend(t: Box<dyn TellHandler<Msg>>, m: Msg) -> impl Future<Output = r
     // moving `o` does not move the heap allocation the future refers to.
     let href: &'static dyn TellHandler<Msg> = unsafe { &*(o._h.as_ref() as *const dyn TellHandler<Msg>) };
     o.fut = Some(href.tell(m));
+    o
+}
+
+/// As `unsafe_extend`, for `TellHandler::tell_with_timeout`.
+fn unsafe_extend_to(t: Box<dyn TellHandler<Msg>>, m: Msg, d: Duration) -> impl Future<Output = rsactor::Result<()>> + Send {
+    struct Owned {
+        fut: Option<std::pin::Pin<Box<dyn Future<Output = rsactor::Result<()>> + Send>>>,
+        _h: Box<dyn TellHandler<Msg>>,
+    }
+    impl Future for Owned {
+        type Output = rsactor::Result<()>;
+        fn poll(mut self: std::pin::Pin<&mut Self>, cx: &mut Context<'_>) -> Poll<Self::Output> {
+            self.fut.as_mut().unwrap().as_mut().poll(cx)
+        }
+    }
+    let mut o = Owned { fut: None, _h: t };
+    // SAFETY: as in unsafe_extend
+    let href: &'static dyn TellHandler<Msg> = unsafe { &*(o._h.as_ref() as *const dyn TellHandler<Msg>) };
+    o.fut = Some(href.tell_with_timeout(m, d));
+    o
+}
+
+/// As `unsafe_extend_ask`, for `AskHandler::ask_with_timeout`.
+fn unsafe_extend_ask_to(t: Box<dyn AskHandler<Msg, Rep>>, m: Msg, d: Duration) -> impl Future<Output = rsactor::Result<Rep>> + Send {
+    struct Owned {
+        fut: Option<std::pin::Pin<Box<dyn Future<Output = rsactor::Result<Rep>> + Send>>>,
+        _h: Box<dyn AskHandler<Msg, Rep>>,
+    }
+    impl Future for Owned {
+        type Output = rsactor::Result<Rep>;
+        fn poll(mut self: std::pin::Pin<&mut Self>, cx: &mut Context<'_>) -> Poll<Self::Output> {
+            self.fut.as_mut().unwrap().as_mut().poll(cx)
+        }
+    }
+    let mut o = Owned { fut: None, _h: t };
+    // SAFETY: as in unsafe_extend
+    let href: &'static dyn AskHandler<Msg, Rep> = unsafe { &*(o._h.as_ref() as *const dyn AskHandler<Msg, Rep>) };
+    o.fut = Some(href.ask_with_timeout(m, d));
     o
 }
 
